@@ -254,8 +254,8 @@ type closureVal struct {
 }
 
 func (c *FnCtx) nilCheck(guard, ref, name string) {
-	if c.prof.NoNilChecks {
-		return
+	if c.prof.NoNilChecks || strings.HasPrefix(ref, "sub!") {
+		return // derived references of by-value fields: the base pointer was checked
 	}
 	c.oblige("nil", "nil@"+name, guard, fmt.Sprintf("(not (= %s 0))", ref), "nil dereference")
 }
@@ -293,8 +293,60 @@ func (c *FnCtx) bv2int(s string, w int, signed bool) string {
 	return fmt.Sprintf("(bv2nat %s)", s)
 }
 
+// isPrivateAlloc: the address of this local never leaves load/store position, so no callee can
+// reach it; it is modelled as a scalar (non-heap) region.
+func isPrivateAlloc(x *ssa.Alloc) bool {
+	var check func(v ssa.Value, depth int) bool
+	check = func(v ssa.Value, depth int) bool {
+		refs := v.Referrers()
+		if refs == nil {
+			return false
+		}
+		for _, r := range *refs {
+			switch u := r.(type) {
+			case *ssa.Store:
+				if u.Val == v {
+					return false
+				}
+			case *ssa.UnOp:
+				if u.Op != token.MUL {
+					return false
+				}
+			case *ssa.DebugRef:
+			case *ssa.MakeClosure:
+				if depth > 0 {
+					return false
+				}
+				fn := u.Fn.(*ssa.Function)
+				for i, b := range u.Bindings {
+					if b == v {
+						if !check(fn.FreeVars[i], depth+1) {
+							return false
+						}
+					}
+				}
+			default:
+				return false
+			}
+		}
+		return true
+	}
+	return check(x, 0)
+}
+
+func (c *FnCtx) localRegion(x *ssa.Alloc) string {
+	name := fmt.Sprintf("L_%s_%s_%d", sanitize(x.Parent().Name()), sanitize(x.Comment), x.Pos())
+	c.regionDecl(name, c.sortOf(derefT(x.Type())))
+	return name
+}
+
 func (c *FnCtx) alloc(st *State, guard string, x *ssa.Alloc) Term {
 	el := derefT(x.Type())
+	if isPrivateAlloc(x) {
+		reg := c.localRegion(x)
+		c.set(st, reg, c.zero(el))
+		return Term{S: "LOCAL:" + reg, Sort: "LOCAL", T: x.Type()}
+	}
 	r := c.newRef(st, guard)
 	p := Term{S: r, Sort: SInt, T: x.Type()}
 	// zero-initialise
@@ -321,9 +373,7 @@ func (c *FnCtx) fieldAddr(fr *frame, st *State, guard string, x *ssa.FieldAddr) 
 	switch ft.Underlying().(type) {
 	case *types.Struct, *types.Array:
 		// by-value nested aggregate: derived reference
-		fn := "sub_" + typeKey(stT) + "_" + sanitize(su.Field(x.Field).Name())
-		c.eng.declareFun(fn, "(Int) Int")
-		return Term{S: fmt.Sprintf("(%s %s)", fn, ref), Sort: SInt, T: x.Type()}
+		return Term{S: c.define("sub", SInt, subRef(ref, x.Field)), Sort: SInt, T: x.Type()}
 	}
 	reg, _ := c.fieldRegion(stT, x.Field)
 	return &Loc{Kind: "field", Region: reg, Ref: ref, T: ft}
@@ -396,6 +446,10 @@ func (c *FnCtx) store(fr *frame, st *State, guard string, addr ssa.Value, v Term
 			c.set(st, reg, v.S)
 			return
 		}
+		if p.Sort == "LOCAL" {
+			c.set(st, strings.TrimPrefix(p.S, "LOCAL:"), v.S)
+			return
+		}
 		c.nilCheck(guard, p.S, "store@"+shortPos(c.curPos))
 		c.storePtr(st, p, derefT(addr.Type()), v)
 	default:
@@ -417,7 +471,14 @@ func (c *FnCtx) unop(fr *frame, st *State, guard string, x *ssa.UnOp) interface{
 		case *Loc:
 			t := c.loadLoc(st, p)
 			t = c.named(t, "ld")
-			c.loadFacts(st, t)
+			if strings.HasSuffix(c.get(st, p.Region), "@0") {
+				// never written in this function: the value is from the entry heap
+				es := *st
+				es.alloc = "alloc@0"
+				c.loadFacts(&es, t)
+			} else {
+				c.loadFacts(st, t)
+			}
 			return t
 		case Term:
 			if p.Sort == "GLOBAL" {
@@ -425,6 +486,9 @@ func (c *FnCtx) unop(fr *frame, st *State, guard string, x *ssa.UnOp) interface{
 				t := Term{S: c.get(st, reg), Sort: c.sortOf(x.Type()), T: x.Type()}
 				c.loadFacts(st, t)
 				return t
+			}
+			if p.Sort == "LOCAL" {
+				return Term{S: c.get(st, strings.TrimPrefix(p.S, "LOCAL:")), Sort: c.sortOf(x.Type()), T: x.Type()}
 			}
 			c.nilCheck(guard, p.S, x.Name())
 			t := c.loadPtr(st, p, x.Type())
